@@ -17,7 +17,8 @@ BUDGET = {'quick': 640, 'thorough': 9600}
 CASE_TIMEOUT = 180
 RULE = ('cases = loop-free executable chart (variables x, y; actions send output events with '
         'parameters; eventless transitions guarded by after(d>=1)) + a feature file of 6-14 '
-        'generated scenarios `Given* (When+ Then+)+` using every predefined step in its documented '
+        'generated scenarios `Given* (When+ Then+)+` (repeated keywords partly spelled And / But) '
+        'using every predefined step in its documented '
         'spelling (send event plain / with p=v / table, wait, do nothing, repeat, reproduce; state '
         'entered / not entered / exited / not exited / active / not active, event fired (plain, '
         'with parameter, table) / not fired, no event fired, variable equals / does not equal, '
@@ -146,7 +147,10 @@ def strategy(tier):
             for _ in range(draw(st.integers(1, 3))):
                 steps += [['When', act(0, earlier)] for _ in range(draw(st.integers(1, 3)))]
                 steps += [['Then', then()] for _ in range(draw(st.integers(1, 3)))]
-            scenarios.append({'name': 'S%d' % i, 'steps': steps})
+            # Gherkin continuation keywords: a step of the same type as the one before it may be
+            # spelled And / But
+            spell = [draw(st.sampled_from(['', '', 'And', 'But'])) for _ in steps]
+            scenarios.append({'name': 'S%d' % i, 'steps': steps, 'spell': spell})
         return {'spec': spec, 'scenarios': scenarios,
                 'cli': draw(st.floats(0, 1)) < 0.08}
     return cases()
@@ -207,9 +211,13 @@ def feature_text(scenarios):
     lines = ['Feature: generated', '']
     for sc in scenarios:
         lines.append('  Scenario: %s' % sc['name'])
-        for kw, s in sc['steps']:
+        spell = sc.get('spell') or []
+        prev = None
+        for j, (kw, s) in enumerate(sc['steps']):
             text, table = then_text(s) if kw == 'Then' else act_text(s)
-            lines.append('    %s %s' % (kw, text))
+            word = spell[j] if j < len(spell) and spell[j] and prev == kw else kw
+            prev = kw
+            lines.append('    %s %s' % (word, text))
             if table:
                 lines.append('      | parameter | value |')
                 for p, v in table:
